@@ -159,6 +159,9 @@ theorem strtolC_digits (ds rest : Bytes) (hne : ds ≠ []) (hd : ∀ d ∈ ds, i
     rw [this]
     simp
 
+theorem parseInt_snd (s : Bytes) : (parseInt s).2 = atoiC s := by
+  unfold parseInt; split <;> rfl
+
 theorem parseInt_digits (ds rest : Bytes) (hne : ds ≠ []) (hd : ∀ d ∈ ds, isDigitC d = true)
     (hr : ∀ c, rest.head? = some c → isDigitC c = false) (hfit : (decVal ds : Int) ≤ INT_MAX) :
     parseInt (ds ++ rest) = (true, (decVal ds : Int)) := by
@@ -170,9 +173,52 @@ theorem parseInt_digits (ds rest : Bytes) (hne : ds ≠ []) (hd : ∀ d ∈ ds, 
   cases ds with
   | nil => exact absurd rfl hne
   | cons d r =>
+    have hh : headIsDigit (d :: r ++ rest) = true := by simp [headIsDigit, hd d (List.mem_cons_self)]
     unfold parseInt atoiC
-    rw [hs, toIntC_id _ (by omega) (by omega)]
-    simp only [List.cons_append, hd d (List.mem_cons_self)]
+    rw [hs, toIntC_id _ (by omega) (by omega), hh]
     simp
+
+/-- `atoi` finds no number: after white space and an optional sign there is no digit -/
+def NoNumber (start : Bytes) : Prop := (skipSign (start.dropWhile isSpaceC)).takeWhile isDigitC = []
+
+theorem headIsDigit_of_noNumber (start : Bytes) (h : NoNumber start) : headIsDigit start = false := by
+  unfold NoNumber at h
+  cases start with
+  | nil => rfl
+  | cons c r =>
+    simp only [headIsDigit]
+    cases hc : isDigitC c with
+    | false => rfl
+    | true =>
+      exfalso
+      have hns := digit_not_space c hc
+      have h45 : c ≠ 45 := by intro hh; subst hh; revert hc; decide
+      have h43 : c ≠ 43 := by intro hh; subst hh; revert hc; decide
+      simp [hns, skipSign, h45, h43, hc] at h
+
+theorem parseInt_noNumber (start : Bytes) (h : NoNumber start) : parseInt start = (false, 0) := by
+  have hf := headIsDigit_of_noNumber start h
+  unfold NoNumber at h
+  have hs : strtolC start = 0 := by unfold strtolC; simp only [h, ↓reduceIte]
+  unfold parseInt atoiC
+  rw [hs, toIntC_id 0 (by omega) (by omega), hf]
+  simp
+
+/-- digits only, but the value does not fit `int` and its low 32 bits read as a negative `int` (or `strtol` saturates):
+the result is negative, which `HttpHdrCc::parse` treats as invalid -/
+theorem parseInt_digits_negative (ds rest : Bytes) (hne : ds ≠ []) (hd : ∀ d ∈ ds, isDigitC d = true)
+    (hr : ∀ c, rest.head? = some c → isDigitC c = false)
+    (hbig : 2147483648 ≤ decVal ds ∧ (decVal ds < 4294967296 ∨ 9223372036854775807 ≤ decVal ds)) :
+    (parseInt (ds ++ rest)).2 < 0 := by
+  have hs := strtolC_digits ds rest hne hd hr
+  have hL := LONG_MAX_eq
+  rw [parseInt_snd]
+  unfold atoiC
+  rw [hs, toIntC_eq]
+  split <;> omega
+
+/-- whatever the text, the value `atoi` delivers is an `int` -/
+theorem atoiC_range (s : Bytes) : -2147483648 ≤ atoiC s ∧ atoiC s ≤ 2147483647 := by
+  unfold atoiC; rw [toIntC_eq]; omega
 
 end SquidModel.Cc
